@@ -177,6 +177,28 @@ pub fn tree_shake(bytecode: Bytecode, entry: usize) -> Bytecode {
             &mut used_resources,
         );
 
+        // A process running this function has the type `Process { send: receive, receive:
+        // result }`, which the IsType compatibility table looks up in the type table (as it does
+        // `Type::Tuple` for tuple values, below): keep that entry, or a process value is
+        // rejected by every type test once the program has been shaken.
+        if let Some(Type::Callable {
+            result, receive, ..
+        }) = bytecode.types.get(function.type_id)
+            && let Some(process_type_id) = bytecode.types.iter().position(|t| {
+                matches!(t, Type::Process { send: Some(s), receive: Some(r) }
+                    if s == receive && r == result)
+            })
+        {
+            collect_type_refs(
+                process_type_id,
+                &bytecode.types,
+                &bytecode.tuples,
+                &mut used_types,
+                &mut used_tuples,
+                &mut used_resources,
+            );
+        }
+
         for instruction in &function.instructions {
             match instruction {
                 Instruction::Function(id) => {
